@@ -757,10 +757,19 @@ fn exec_case(c: &Value, sandbox: &Path, x: &mut Exec) -> Tm {
             if i == 0 { font.data.keys().map(|k| text(k)).collect() } else { font.images.keys().map(|k| text(k)).collect() };
         have.sort();
         if want != have {
-            x.fail(format!("loaded keys {:?} differ from the files on disk {:?}", have, want));
+            let show = |v: &Vec<Vec<u8>>| v.iter().map(|k| String::from_utf8_lossy(k).to_string()).collect::<Vec<_>>();
+            x.fail(format!(
+                "the {} store lists {:?} after Font::load, the files on disk are {:?}",
+                if i == 0 { "data" } else { "images" },
+                show(&have),
+                show(&want)
+            ));
         }
     }
-    let mut out = vec![Tm::N(0)];
+    let mut out = vec![Tm::N(0), tm_keys(&font.data), tm_keys(&font.images)];
+    if x.verbose {
+        println!("  after Font::load: data keys {} images keys {}", out[1].to_string(), out[2].to_string());
+    }
     for o in c["ops"].as_array().unwrap() {
         let k = o["k"].as_u64().unwrap_or(0) as usize;
         let t = o["t"].as_str().unwrap_or("");
@@ -876,6 +885,31 @@ fn do_save(font: &Font, o: &Value, sandbox: &Path, src: &Path, x: &mut Exec) -> 
                     ));
                 }
             }
+            // save then load: every entry is listed again and reads back verbatim
+            match catch(|| Font::load(&target)) {
+                Ok(Ok(f2)) => {
+                    x.bump("save_reloads");
+                    let back = |x: &mut Exec, what: &str, ents: &Vec<(Vec<u8>, Vec<u8>)>, have: Vec<(Vec<u8>, Result<Vec<u8>, u64>)>| {
+                        let mut want: Vec<(Vec<u8>, Result<Vec<u8>, u64>)> =
+                            ents.iter().map(|(k, b)| (k.clone(), Ok(b.clone()))).collect();
+                        want.sort();
+                        let mut have = have;
+                        have.sort();
+                        if want != have {
+                            x.fail(format!(
+                                "after save and load the {} store holds {:?}, saved were {:?}",
+                                what,
+                                have.iter().map(|(k, _)| String::from_utf8_lossy(k).to_string()).collect::<Vec<_>>(),
+                                want.iter().map(|(k, _)| String::from_utf8_lossy(k).to_string()).collect::<Vec<_>>()
+                            ));
+                        }
+                    };
+                    back(x, "data", &d, snapshot(&f2.data));
+                    back(x, "images", &i, snapshot(&f2.images));
+                }
+                Ok(Err(e)) => x.fail(format!("the saved font does not load: {}", format!("{:?}", e).chars().take(200).collect::<String>())),
+                Err(p) => x.fail(format!("loading the saved font panicked: {}", p)),
+            }
             // dump of target/data and target/images
             let mut l = vec![];
             for (k, v) in after.iter().filter(|(k, _)| inside(k) && k.len() > tpre.len()) {
@@ -949,6 +983,46 @@ const RAW_POOL: [&str; 24] = [
 const DATA_PATHS: [&str; 12] = ["a", "b", "A", "a/b", "a/b/c", "a/c", "c/d", "ab", "f.txt", ".hid", "b/x y", "c/d/e"];
 const IMG_PATHS: [&str; 5] = ["a", "b", "A", "i.png", "f.txt"];
 
+/// file names that tools and operating systems treat specially, norad's own file names, and
+/// (appended at start-up) the string literals harvested from norad's sources: a store must list,
+/// keep, write and re-list every one of them like any other name
+const SPECIAL_NAMES: [&str; 44] = [
+    ".DS_Store", ".hidden", ".gitignore", "..data", "._x", "._", "._thumb.png", "._index", ".git", ".a.swp",
+    "Thumbs.db", "desktop.ini", "x~", "~", "x.tmp", "x.bak", "x.swp", "#x#", ".#x", " lead", "trail ", " ",
+    "Icon\r", "contents.plist", "metainfo.plist", "layercontents.plist", "lib.plist", "fontinfo.plist",
+    "groups.plist", "kerning.plist", "features.fea", "layerinfo.plist", "glyphs", "glyphs.background", "data",
+    "images", "a.glif", "CON", "nul.txt", "x.", "...", "-", "*", "a\\b",
+];
+const SPECIAL_DIRS: [&str; 10] =
+    ["com.example.tool", ".dotdir", "._dir", ".DS_Store", "a", "c/d", " sp ", "glyphs", "data", "images"];
+static HARVESTED: std::sync::OnceLock<Vec<String>> = std::sync::OnceLock::new();
+
+fn special_name(rng: &mut Rng) -> String {
+    let h = HARVESTED.get().map(|v| v.as_slice()).unwrap_or(&[]);
+    if !h.is_empty() && rng.chance(1, 4) {
+        rng.pick(h).clone()
+    } else {
+        rng.pick(&SPECIAL_NAMES).to_string()
+    }
+}
+/// a relative path of plain names for a file in data/ (any depth) or images/ (flat)
+fn pick_path(rng: &mut Rng, image: bool) -> String {
+    if rng.chance(35, 100) {
+        let n = special_name(rng);
+        if image || rng.chance(1, 2) {
+            n
+        } else if rng.chance(1, 6) {
+            format!("{}/{}", special_name(rng), n)
+        } else {
+            format!("{}/{}", rng.pick(&SPECIAL_DIRS), n)
+        }
+    } else if image {
+        rng.pick(&IMG_PATHS).to_string()
+    } else {
+        rng.pick(&DATA_PATHS).to_string()
+    }
+}
+
 fn conflicts(d: &Disk, p: &[Vec<u8>]) -> bool {
     d.keys().any(|q| {
         let n = q.len().min(p.len());
@@ -990,7 +1064,7 @@ fn gen_disk(rng: &mut Rng, image: bool) -> Option<Disk> {
     let mut d = Disk::new();
     let n = rng.below(if image { 4 } else { 6 });
     for _ in 0..n {
-        let p = names_of(if image { *rng.pick(&IMG_PATHS) } else { *rng.pick(&DATA_PATHS) });
+        let p = names_of(&pick_path(rng, image));
         if !conflicts(&d, &p) {
             let b = if image { rand_image(rng) } else { rand_bytes(rng) };
             d.insert(p, Dent::File(b));
@@ -1075,7 +1149,7 @@ fn mutate_disk(rng: &mut Rng, d: &Option<Disk>, image: bool) -> Option<Disk> {
         }
         6 => d.clear(),
         _ => {
-            let p = names_of(if image { *rng.pick(&IMG_PATHS) } else { *rng.pick(&DATA_PATHS) });
+            let p = names_of(&pick_path(rng, image));
             if !conflicts(&d, &p) {
                 let b = if image { rand_image(rng) } else { rand_bytes(rng) };
                 d.insert(p, Dent::File(b));
@@ -1103,9 +1177,18 @@ fn gen_case(rng: &mut Rng, long: bool) -> Value {
     let mut ops = vec![];
     for _ in 0..n {
         let k = if rng.chance(6, 10) { 0usize } else { 1 };
+        let mut special = false;
         let raw: String = if !cands[k].is_empty() && rng.chance(45, 100) {
             let c = rng.pick(&cands[k]).clone();
             respell(rng, &c)
+        } else if rng.chance(1, 4) {
+            special = true;
+            let p = pick_path(rng, k == 1);
+            if rng.chance(1, 5) {
+                respell(rng, &p)
+            } else {
+                p
+            }
         } else if k == 1 && rng.chance(1, 2) {
             rng.pick(&["a", "b", "A", "i.png", "a/", "./a", "..", "", "/a", "a/b", "."]).to_string()
         } else {
@@ -1114,7 +1197,9 @@ fn gen_case(rng: &mut Rng, long: bool) -> Value {
         let r = rng.below(100);
         let o = if r < 34 {
             let data = if k == 1 { rand_image(rng) } else { rand_bytes(rng) };
-            if !raw.is_empty() && !raw.starts_with('/') && !raw.contains("..") && !raw.starts_with('.') {
+            if special {
+                cands[k].push(raw.clone());
+            } else if !raw.is_empty() && !raw.starts_with('/') && !raw.contains("..") && !raw.starts_with('.') {
                 cands[k].push(raw.trim_end_matches('/').replace("//", "/"));
             }
             json!({"t": "ins", "k": k, "raw": raw.as_bytes(), "data": data})
@@ -1235,6 +1320,19 @@ pub fn main(a: &Args) {
         }
         return;
     }
+    // string literals of norad's sources that can be file names (written by the driver)
+    let harvested: Vec<String> = std::fs::read(a.out.join("names.txt"))
+        .ok()
+        .map(|b| {
+            String::from_utf8_lossy(&b)
+                .split('\n')
+                .filter(|n| !n.is_empty() && *n != "." && *n != ".." && !n.contains('/') && !n.contains('\0') && n.len() <= 60)
+                .map(|n| n.to_string())
+                .collect()
+        })
+        .unwrap_or_default();
+    let nharvest = harvested.len();
+    let _ = HARVESTED.set(harvested);
     let mut failures: Vec<Value> = vec![];
     // Part A
     let (dd, di) = if a.thorough() { (5, 4) } else { (4, 3) };
@@ -1306,6 +1404,7 @@ pub fn main(a: &Args) {
         "exhaustive_data": sa, "exhaustive_image": sb,
         "world_cases": inputs.len(), "world_corpus_cases": ncorpus, "world_operations": nops_total,
         "world_stats": stats.iter().map(|(k, v)| (k.to_string(), json!(v))).collect::<serde_json::Map<_, _>>(),
+        "special_names": SPECIAL_NAMES.len(), "harvested_names": nharvest,
         "glyph_image_names": gnames.len(),
         "glyph_image_rejected_not_unicode": gi.iter().filter(|c| **c == 10).count(),
         "os_level_probe": probe,
